@@ -218,8 +218,13 @@ def canon(x):
             return canon(x.item())
     if isinstance(x, bytes):
         return x.decode('utf-8', 'replace')
-    if isinstance(x, float) and x == int(x) and abs(x) < 2 ** 53:
-        return int(x)
+    if isinstance(x, float):
+        if x != x:
+            return 'nan'
+        if x in (float('inf'), float('-inf')):
+            return 'inf' if x > 0 else '-inf'
+        if x == int(x) and abs(x) < 2 ** 53:
+            return int(x)
     return x
 
 
